@@ -51,9 +51,12 @@ if os.environ.get("VERIF_C12_SCALE"):     # development aid: shrink the plan
         _p["cases"] = max(16, int(_p["cases"] * float(os.environ["VERIF_C12_SCALE"])))
 WALL_CAP = {"quick": 900, "thorough": 3300}
 FORK_EACH = True
+CASE_TIMEOUT = 20          # per-case watchdog (seconds); typical cases take milliseconds
+HANG_RETRY_FACTOR = 10     # a case exceeding the watchdog is re-run once with 10x the budget before it is reported as a hang
 EXPLANATION = "parts: corner ~49%, invalid ~49.5%, history ~1.5% of the cases (300+ histories of <= 30 steps in the quick tier)"
 
 FLAVOUR = os.environ.get("VERIF_FLAVOUR", "plain")
+TRACE = bool(os.environ.get("VERIF_C12_TRACE"))
 AS_LIMIT = 6 << 30            # RLIMIT_AS of plain workers
 OVERSIZED_BYTES = 64 << 30    # a single allocation of this size cannot succeed under AS_LIMIT
 MODERATE_COUNT = 300000       # combinations up to this many tuples are simply executed
@@ -254,7 +257,7 @@ def all_list_lengths(T, vals):
 
 def request_class(T, vals, spec):
     """'moderate' | 'between' | 'oversized' | 'overflow' for the memory a request explicitly asks for"""
-    if spec["op"] == "combinations" and spec["n"] >= 4:
+    if spec["op"] == "combinations" and (spec["n"] >= 4 or max(all_list_lengths(T, vals)) > 40):
         lens = list_lengths_at(T, vals, spec["axis"])
         if lens is None:
             lens = all_list_lengths(T, vals)
@@ -268,6 +271,9 @@ def request_class(T, vals, spec):
         return worst
     if spec["op"] in ("rpad", "rpad_and_clip") and spec["target"] > 100000:
         return "oversized" if spec["target"] * 8 >= OVERSIZED_BYTES else "between"
+    if spec["op"] == "rpad_and_clip" and spec["target"] < 0:
+        # a request for a negative number of items: as an unsigned byte count it can never be allocated (std::bad_alloc -> MemoryError)
+        return "oversized"
     return "moderate"
 
 
@@ -788,8 +794,85 @@ def broken_rule(d):
     return "", reason
 
 
+def _len_or_none(d):
+    try:
+        return M.length_of(d)
+    except (M.Invalid, ZeroDivisionError, KeyError, IndexError, TypeError):
+        return None
+
+
+def local_rules(d, out=None):
+    """the documented structural rules (docs-sphinx/ak.layout.*.rst) broken *at* each node, as a set of '<class family>:<rule>';
+    nesting rules (option in option, union in union) and parameter rules are not memory-related and are left out"""
+    out = set() if out is None else out
+    cls = d["class"]
+    fam = family(cls)
+    if cls.startswith(("ListOffsetArray", "ListArray")):
+        n = _len_or_none(d["content"])
+        pairs = zip(d["offsets"][:-1], d["offsets"][1:]) if cls.startswith("ListOffsetArray") else zip(d["starts"], d["stops"])
+        for a, b in pairs:
+            if a > b:
+                out.add(fam + ":start>stop")
+            if a < 0 or b < 0:
+                out.add(fam + ":negative")
+            if n is None or (a != b and b > n) or a > n:
+                out.add(fam + ":beyond_content")
+        if cls.startswith("ListArray") and len(d["stops"]) != len(d["starts"]):
+            out.add(fam + ":len(stops)!=len(starts)")
+    elif cls.startswith("Indexed"):
+        n = _len_or_none(d["content"])
+        for x in d["index"]:
+            if x < 0 and not cls.startswith("IndexedOption"):
+                out.add(fam + ":negative")
+            if n is None or x >= n:
+                out.add(fam + ":beyond_content")
+    elif cls == "ByteMaskedArray":
+        n = _len_or_none(d["content"])
+        if n is None or n < len(d["mask"]):
+            out.add(fam + ":content_shorter")
+    elif cls == "BitMaskedArray":
+        n = _len_or_none(d["content"])
+        if len(d["mask"]) * 8 < d["length"]:
+            out.add(fam + ":mask_shorter")
+        if n is None or n < d["length"]:
+            out.add(fam + ":content_shorter")
+        if d["length"] < 0:
+            out.add(fam + ":negative")
+    elif cls == "RecordArray":
+        n = _len_or_none(d)
+        if n is not None and n < 0:
+            out.add(fam + ":negative")
+        for c in d["contents"]:
+            m = _len_or_none(c)
+            if m is None or n is None or m < n:
+                out.add(fam + ":field_shorter")
+    elif cls.startswith("UnionArray"):
+        if len(d["index"]) < len(d["tags"]):
+            out.add(fam + ":index_shorter")
+        lens = [_len_or_none(c) for c in d["contents"]]
+        for t, i in zip(d["tags"], d["index"]):
+            if t < 0 or t >= len(lens):
+                out.add(fam + ":tag_range")
+            elif i < 0 or lens[t] is None or i >= lens[t]:
+                out.add(fam + ":index_range")
+        if any(i < 0 for i in d["index"]):
+            out.add(fam + ":negative")
+    elif cls == "RegularArray":
+        if d["size"] < 0 or d.get("zeros_length", 0) < 0:
+            out.add(fam + ":negative")
+    if "content" in d:
+        local_rules(d["content"], out)
+    for c in d.get("contents", []):
+        local_rules(c, out)
+    return out
+
+
 def invalid_label(case):
-    return "%s|%s|%s" % (case["entry"], family(case["desc"]["class"]), case["rule"])
+    try:
+        rules = sorted(local_rules(case["desc"]))
+    except (KeyError, IndexError, TypeError):
+        rules = ["malformed"]
+    return "%s|%s" % (case["entry"], "+".join(rules) or "structurally_valid")
 
 
 def run_invalid(case):
@@ -970,6 +1053,22 @@ def history_case(draw):
     return {"part": "history", "inputs": inputs, "steps": steps}
 
 
+HISTORY_MAX_TUPLES = 2000
+
+
+def history_too_big(T, vals, spec):
+    """histories are about lifetimes, not sizes: repeated combinations of combinations grow without bound, so a derive step
+    whose result would have more than HISTORY_MAX_TUPLES tuples at any level is skipped (counted)"""
+    if spec["op"] != "combinations":
+        return False
+    if request_class(T, vals, spec) != "moderate":
+        return True
+    for group in (list_lengths_at(T, vals, spec["axis"]) or [], all_list_lengths(T, vals)):
+        if comb_class(group, spec["n"], spec["replacement"])[1] > HISTORY_MAX_TUPLES:
+            return True
+    return False
+
+
 class Entry(object):
     def __init__(self, obj, value, text, parents):
         self.obj, self.value, self.text, self.parents = obj, value, text, parents
@@ -1030,6 +1129,10 @@ def run_history(case):
 
     for step in case["steps"]:
         lv = live()
+        if TRACE:
+            import sys
+            sys.stderr.write("C12-TRACE step %s live=%s\n" % (json.dumps(step), lv))
+            sys.stderr.flush()
         if not lv:
             counts["step:noop"] += 1
             continue
@@ -1047,6 +1150,13 @@ def run_history(case):
                 excl = excl or c12_exclude({"part": "corner", "desc": sd, "spec": spec})
             except (M.Invalid, KeyError):
                 excl = "undescribable"
+            if spec["op"] == "carry":
+                # Content::carry is an internal building block whose callers always pass positions inside the array: the drawn
+                # positions are folded into the source's current length
+                ln = len(e.value[1])
+                spec = dict(spec, index=[i % ln for i in spec["index"]] if ln else [])
+            if not excl and history_too_big(e.value[0], e.value[1], spec):
+                excl = "result too big for a history"
             if excl:
                 counts["step:derive_skipped"] += 1
                 pool.append(None)
